@@ -190,10 +190,14 @@ def roll(window, stride, pipeline):
         raise ValueError()
 
     pipeline = rx.pipe(*pipeline) if type(pipeline) is list else pipeline
-    _roll, outer_obs = roll_mux(window, stride)
 
-    return rx.pipe(
-        _roll,
-        pipeline,
-        demux_mux_observable(outer_obs),
-    )
+    def _roll_op(source):
+        # one outer observer per application of the operator
+        _roll, outer_obs = roll_mux(window, stride)
+        return rx.pipe(
+            _roll,
+            pipeline,
+            demux_mux_observable(outer_obs),
+        )(source)
+
+    return _roll_op
